@@ -26,9 +26,10 @@ def handle (op : String) (a r : Json) : Except String Reply := do
     let m := if subscribesFirst then spec
              else jObj [("unmodelled", Json.str "the ping does not listen for notices before it sends: whether a notice is seen is a race")]
     let holds := canonEq r spec
+    let wedged := (optField r "wedged").isSome
     pure { m := m, prop := some holds,
-           why := if holds then "" else "a ping whose budget ran out did not report 'message expired' from the node where it ran out (the notice was lost or the ping timed out)",
-           sig := if holds then "" else "C10/ping/expiry-not-reported" }
+           why := if holds then "" else if wedged then "a burst of pings never finished: the delivery of notices to the sockets of this node is wedged" else "a ping whose budget ran out did not report 'message expired' from the node where it ran out (the notice was lost or the ping timed out)",
+           sig := if holds then "" else if wedged then "C10/ping/burst-wedged" else "C10/ping/expiry-not-reported" }
   | _ => throw s!"bad-op ping {op}"
 
 end Receptor.Drive.Ping
